@@ -107,19 +107,24 @@ def r18_1(ctx: Ctx):
 
     step_heads = {cfg.loop_of(n)["head"].id for n in step_nodes if cfg.loop_of(n) is not None}
 
-    # state: "OUT" | (opt, flag, stepped)  opt/flag in {None, True, False}
+    # state: ("OUT", amb) | (opt, flag, stepped, amb)  opt/flag/amb in {None, True, False}; amb = what is known about the
+    # option OUTSIDE the stepping loop (a test hoisted out of it: `if option: for d: if not d._hibernating: step` / `else: for d: step`)
+    def is_out(s):
+        return isinstance(s, tuple) and len(s) == 2 and s[0] == "OUT"
+
     def node_fn(n, s):
         if n.kind == "forhead" and n.id not in step_heads:
             return [s]  # an enclosing loop over the levels
         if n.kind == "forhead":
-            if s != "OUT":
-                opt, flag, stepped = s
+            if not is_out(s):
+                opt, flag, stepped, amb = s
                 if not stepped and not (opt is True and flag is True):
                     viol.append((n, s, "an iteration skips its deme without (hibernation option on and deme._hibernating)"))
-            return ["OUT"]
-        if s == "OUT":
+                return [("OUT", amb)]
             return [s]
-        opt, flag, stepped = s
+        if is_out(s):
+            return [s]
+        opt, flag, stepped, amb = s
         if n in step_nodes:
             if flag is True and opt is not False:
                 viol.append((n, s, "a deme whose _hibernating flag is set is stepped while the option is on"))
@@ -127,24 +132,32 @@ def r18_1(ctx: Ctx):
                 # stepping without having looked at the flag while the option may be on
                 viol.append((n, s, "a deme is stepped without testing its _hibernating flag although the option may be on"))
             stepped = True
-        return [(opt, flag, stepped)]
+        return [(opt, flag, stepped, amb)]
 
     def edge_fn(n, lab, s):
         if n.kind == "forhead" and n.id not in step_heads:
             return s
         if n.kind == "forhead":
-            return (None, None, False) if lab == "iter" else "OUT"
-        if s == "OUT" or n.kind != "cond" or lab not in (True, False):
+            amb0 = s[1] if is_out(s) else s[3]
+            return (amb0, None, False, amb0) if lab == "iter" else ("OUT", amb0)
+        if n.kind != "cond" or lab not in (True, False):
+            return s
+        if is_out(s):
+            e0 = n.ast
+            if e0 is not None and (_mentions_option(e0) or (isinstance(e0, ast.Name) and e0.id in opt_defs)) and not _mentions_flag(e0):
+                o0 = _option_outcome(n, lab) if _mentions_option(e0) else bool(lab)
+                if o0 is not None and s[1] is not False:
+                    return ("OUT", o0)
             return s
         if lab is False and isinstance(n.ast, ast.Attribute) and n.ast.attr in ("is_active", "_active"):
-            return "OUT"  # the loop itself filters out inactive demes: not one of the iterations this rule is about
+            return ("OUT", s[3])  # the loop itself filters out inactive demes: not one of the iterations this rule is about
         from .common import consult_verdict
 
         if consult_verdict(ctx, f, n, "gsc", lab) is True:
             # the global stop condition holds: SKIPPING a deme from here on is C05 / C06's business, not hibernation's
             # (stepping a sleeping deme still is)
-            return (s[0], s[1], True)
-        opt, flag, stepped = s
+            return (s[0], s[1], True, s[3])
+        opt, flag, stepped, amb = s
         e = n.ast
         is_opt = _mentions_option(e) or (isinstance(e, ast.Name) and e.id in opt_defs)
         is_flag = _mentions_flag(e)
@@ -165,9 +178,9 @@ def r18_1(ctx: Ctx):
                 flag = lab == (v == pos)
             else:
                 unknown.append(n)
-        return (opt, flag, stepped)
+        return (opt, flag, stepped, amb)
 
-    at, exits, parent = typestate(cfg, ["OUT"], node_fn, edge_fn)
+    at, exits, parent = typestate(cfg, [("OUT", None)], node_fn, edge_fn)
     obs = []
     if unknown:
         n = unknown[0]
@@ -326,6 +339,8 @@ def r18_3(ctx: Ctx):
                 obs.append(ctx.ob("R18.3", f, st, status=INCONCLUSIVE, detail="flag stored from a non-constant the analyser cannot relate to membership in the seeds"))
         elif "?" in facts:
             obs.append(ctx.ob("R18.3", f, st, status=INCONCLUSIVE, detail=f"`_hibernating = {val}` is guarded by a membership test the analyser cannot relate to the keys of `{seeds_name}`"))
+        elif facts == {"U"} and any(isinstance(x, ast.Match) for x in body_walk(f.node)):
+            obs.append(ctx.ob("R18.3", f, st, status=INCONCLUSIVE, detail=f"`_hibernating = {val}` stands in an arm of a `match` statement: what that arm says about membership in `{seeds_name}` is not followed"))
         elif facts == {want}:
             obs.append(ctx.ob("R18.3", f, st, detail=f"`_hibernating = {val}` exactly when the deme is {'not ' if val else ''}among this round's seeds"))
         else:
@@ -499,6 +514,8 @@ def r18_4(ctx: Ctx):
             why = ""
             for d in defnodes:
                 for sn in sprout_nodes:
+                    if not cfg.can_reach(sn, head):
+                        continue  # a sprouting call on a path that never reaches this flag loop (e.g. the option-off branch)
                     if d.id not in dom.get(sn.id, set()):
                         ok = False
                         why = f"`{d.label}` does not precede the _do_sprout call on every path"
@@ -665,12 +682,17 @@ def r18_8(ctx: Ctx):
     # state: "PRE" (before sprouting) | "PENDING" (sprouted, flags not yet rewritten) | "DONE" | "OFF" (option known off)
     def node_fn(n, s):
         if n in sprout_nodes:
-            return ["PENDING"]
+            return ["OFF" if s in ("OFF", "OFF-PRE") else "PENDING"]
         if n in loops and s == "PENDING":
             return ["DONE"]
         return [s]
 
     def edge_fn(n, lab, s):
+        if n.kind == "cond" and lab in (True, False) and s == "PRE":
+            # the option tested BEFORE the round sprouts (`if not hibernation: self._do_sprout(seeds); return`)
+            e = n.ast
+            if (_mentions_option(e) and _option_outcome(n, lab) is False) or (isinstance(e, ast.Name) and e.id in opt_defs and lab is False):
+                return "OFF-PRE"
         if n.kind == "cond" and lab in (True, False) and s == "PENDING":
             e = n.ast
             if _mentions_option(e):
